@@ -71,10 +71,18 @@ def run(tier, seed, replay=None):
             eps = rng.choice([1e-10, 1e-8, 1e-6, 1e-4, 1e-3])
             prec = rng.choice([None, "c", "r"])
             guess = solverkit.rand_tt_float(rng, N, solverkit.ranks(rng, len(N), 3), dt) if rng.random() < 0.4 else None
+            gk = "random" if guess is not None else "none"
+            if guess is not None and (rng.random() < 0.5 or i in (9, 13)):          # guesses of zero norm, b itself
+                gk = rng.choice(["zeros", "0*b", "zero-core", "b"])
+                if gk == "zeros": guess = torchtt.zeros(N, dtype=dt)
+                elif gk == "0*b": guess = 0 * b
+                elif gk == "b": guess = b.clone()
+                else:
+                    cs_ = [c.clone() for c in guess.cores]; k0 = rng.randrange(len(cs_)); cs_[k0] = torch.zeros_like(cs_[k0]); guess = torchtt.TT(cs_)
             # local solver settings: default (dense local solves for these sizes) or forced GMRES with short cycles, so that restarts happen
             lk = rng.choice([{}, {}, {"max_full": 0}, {"max_full": 0, "local_iterations": rng.choice([4, 6, 10]), "resets": rng.choice([6, 10])}])
             if i in (9, 11): lk = {"max_full": 0, "local_iterations": 6, "resets": 10}
-            desc = {"routine": which, "N": N, "family": kind, "eps": eps, "preconditioner": prec, "guess": guess is not None, "torch_seed": sd, "local": lk}
+            desc = {"routine": which, "N": N, "family": kind, "eps": eps, "preconditioner": prec, "guess": guess is not None, "guess_kind": gk, "torch_seed": sd, "local": lk}
             key = "amen_solve %s prec=%s%s" % (kind, prec, " gmres-restarts" if "resets" in lk else (" gmres" if lk else ""))
             ops = {"A": A, "b": b}
             if guess is not None: ops["guess"] = guess
